@@ -390,6 +390,12 @@ MOVES = {          # how the state s1 differs from the primed state s0
 }
 
 
+# Note on entropy: the ideal-mixture entropy contains log(x_i); `log` is uninterpreted in the engine (only
+# log(a/b) = log a - log b is applied).  A memo *hit* on S after the flows were rescaled compares log(n_i) with
+# log(k n_i) - log k terms, which the solver cannot identify (spurious counter-models that do not replay natively).
+# S is therefore never *primed* before an operation that rescales the flows; it is read at the end of every
+# history, and the memo logic under check does not depend on the property name.
+
 def getprop_configs(tier):
     out = []
     kinds = ['l', 'gl'] if tier == 'quick' else ['l', 'gl', 'lL', 'gls']
@@ -401,6 +407,7 @@ def getprop_configs(tier):
         for prime in primes:
             for mv in moves:
                 if not prime and mv != 'same': continue
+                if 'S' in prime and mv in ('total', 'all'): continue    # see note on entropy below
                 if (tier == 'thorough' or mv in ('same', 'all', 'T', 'comp')) and len(prime) <= 1:
                     firsts = PRIMARY
                 else:
@@ -484,7 +491,7 @@ MUTATORS = {
 def mutator_configs(tier):
     out = []
     kinds = ['l', 'gl'] if tier == 'quick' else ['l', 'g', 'gl', 'lL']
-    primes = [('H',), ('sigma',)] if tier == 'quick' else [('H',), ('sigma',), ('S',), ('V', 'Cn'), ('Hvap', 'epsilon')]
+    primes = [('H',), ('sigma',)] if tier == 'quick' else [('H',), ('sigma',), ('V', 'Cn'), ('Hvap', 'epsilon')]
     afters = {'quick': ['none', 'T'], 'thorough': ['none', 'T', 'fl', 'TP+fl']}[tier]
     for kind in kinds:
         tag = 'm' if len(kind) > 1 else 'l'
@@ -648,7 +655,7 @@ def _ok_history(seq):
 ALPHABET = {
     ('l', 'quick'): ['r:H', 'r:sigma', 'T', 'ph:g', 'fl', 'sc', 'mix', 'link', 'oT', 'proxy', 'pr:H', 'thermo:B'],
     ('gl', 'quick'): ['r:H', 'T', 'fl', 'vfl:l', 'ph:l', 'phs:gls', 'thermo:B'],
-    ('l', 'thorough'): ['r:H', 'r:sigma', 'r:S', 'T', 'P', 'ph:g', 'fl', 'sc', 'mix', 'link', 'oT', 'proxy', 'pr:H', 'thermo:B', 'phs:gl'],
+    ('l', 'thorough'): ['r:H', 'r:sigma', 'r:V', 'T', 'P', 'ph:g', 'fl', 'sc', 'mix', 'link', 'oT', 'proxy', 'pr:H', 'thermo:B', 'phs:gl'],
     ('gl', 'thorough'): ['r:H', 'r:sigma', 'T', 'P', 'fl', 'sc', 'mix', 'vfl:l', 'ph:l', 'phs:gls', 'proxy', 'pr:H', 'link', 'oT', 'thermo:B'],
 }
 DEEP = {   # restricted alphabets for the deep histories
